@@ -214,6 +214,8 @@ def _gen_op(rng, g, cfg, fault_now):
         if k == "eq":
             op["t2"], op["n2"] = rng.randrange(64), rng.randrange(4096)
         return op
+    if g == "set" and rng.random() < 0.2:
+        return {"k": "set_case", **_tn(rng), "key": rng.randrange(64), "whole": rng.random() < 0.5}
     if g == "set":
         return {"k": "set", **_tn(rng), "key": rng.randrange(64), "v": rng.choice([None, _val(rng), _val(rng)]), "list": [_val(rng) for _ in range(rng.randint(0, 3))]}
     if g == "set_idx":
@@ -237,10 +239,10 @@ def _gen_op(rng, g, cfg, fault_now):
         b = rng.choice(sorted(SELECT_BUILDERS))
         return {"k": "builder", **_tn(rng), "b": b, "copy": rng.random() < (0.7 if cfg["mode"] == "C09" else 0.35),
                 "bad": bool(fault_now and "bad_builder_arg" in faults), "append": rng.random() < 0.8, "arg_expr": rng.random() < 0.3,
-                "on_root": rng.random() < 0.3}
+                "on_root": rng.random() < 0.3, "donor": [rng.randrange(64), rng.randrange(4096), rng.random() < 0.3] if rng.random() < 0.5 else None}
     if g == "wrap":
         return {"k": "wrap", "t": rng.randrange(64), "n": rng.randrange(4096), "b": rng.choice(WRAP_BUILDERS), "copy": rng.random() < (0.8 if cfg["mode"] == "C09" else 0.4),
-                "bad": bool(fault_now and "bad_builder_arg" in faults)}
+                "bad": bool(fault_now and "bad_builder_arg" in faults), "donor": [rng.randrange(64), rng.randrange(4096)] if rng.random() < 0.4 else None}
     if g == "comments":
         return {"k": "comments", **_tn(rng), "prepend": rng.random() < 0.5, "meta": rng.random() < 0.3}
     if g == "set_kwargs":
@@ -265,7 +267,8 @@ def _gen_op(rng, g, cfg, fault_now):
                                "comments": False, "unsupported_level": rng.choice(["RAISE", "IMMEDIATE", "IGNORE"]), "pad": 4, "max_text_width": 20, "leading_comma": True}[o]
         return {"k": "nm", "f": f, "t": rng.randrange(64), "n": 0 if rng.random() < 0.6 else rng.randrange(4096), "t2": rng.randrange(64), "n2": 0 if rng.random() < 0.5 else rng.randrange(4096),
                 "dialect": d, "opts": opts, "exhaust": rng.randrange(5, 80) if (fault_now and "stack_exhaustion" in faults) else None,
-                "matchings": rng.random() < 0.3, "delta_only": rng.random() < 0.3, "col_node": rng.random() < 0.5, "keep": rng.random() < 0.5}
+                "matchings": rng.random() < 0.3, "delta_only": rng.random() < 0.3, "col_node": rng.random() < 0.5, "keep": rng.random() < 0.5,
+                "db_node": rng.choice([0, 0, 1, 2])}
     raise ValueError(g)
 
 
@@ -349,12 +352,29 @@ def _sql(t):
         return None
 
 
+_EXACT_TOKENS = None
+
+
 def _norm_sql(t):
-    """SQL of a clone in which args that equality ignores (None / False / empty list) are dropped; case-folded."""
+    """(case-folded SQL, texts of its string-like literal and quoted-identifier tokens) of a clone in which args that equality
+    ignores (None / False / empty list) are dropped. Equality folds the case of keywords, function names, types and unquoted
+    words by design; the text of string-like literals and quoted identifiers is a leaf value in its own right."""
+    global _EXACT_TOKENS
     try:
-        return inv.clone(t, drop_falsy=True).sql(comments=False).lower()
+        sql = inv.clone(t, drop_falsy=True).sql(comments=False)
     except Exception:
         return None
+    exact = ()
+    try:
+        from sqlglot.tokens import Tokenizer, TokenType
+
+        if _EXACT_TOKENS is None:
+            _EXACT_TOKENS = {getattr(TokenType, n) for n in ("STRING", "RAW_STRING", "NATIONAL_STRING", "BYTE_STRING", "UNICODE_STRING", "HEREDOC_STRING", "IDENTIFIER")
+                             if hasattr(TokenType, n)}
+        exact = tuple(tk.text for tk in Tokenizer().tokenize(sql) if tk.token_type in _EXACT_TOKENS)
+    except Exception:
+        pass
+    return sql.lower(), exact
 
 
 def _position_class(n):
@@ -486,6 +506,28 @@ def _apply(world, op, st):
             t2, n2, _ = world.node(op["t2"], op["n2"])
             res["nm"].append(t2)
             res["outcome"] = "ok:%s" % (n == n2)
+        return res
+
+    if k == "set_case":
+        # change only the letter case of one plain-string leaf value
+        t, n, nodes = target(op["t"], op["n"])
+        res["targets"].add(id(t)); res["mut_tree"] = t
+        ni = next(i for i, x in enumerate(nodes) if x is n)
+        cand = None
+        for x in nodes[ni:] + nodes[:ni]:
+            ks = sorted(kk for kk, vv in x.args.items() if type(vv) is str and vv.swapcase() != vv)
+            if ks:
+                cand = (x, ks[op["key"] % len(ks)])
+                break
+        if cand is None:
+            res["outcome"] = "skip"
+            res["targets"] = set(); res["mut_tree"] = None; res["nm"] = [t]
+            return res
+        x, key = cand
+        v = x.args[key]
+        i = next(j for j, ch in enumerate(v) if ch.swapcase() != ch)
+        x.set(key, v.swapcase() if op["whole"] else v[:i] + v[i].swapcase() + v[i + 1:])
+        res["cls"] = type(x).__name__
         return res
 
     if k == "set":
@@ -699,6 +741,14 @@ def _apply(world, op, st):
             res["nm"] = [t]
         else:
             res["targets"].add(id(t)); res["mut_tree"] = t
+        args = [arg]
+        if cp and op.get("donor") and b in ("where", "having", "qualify") and not op["bad"]:
+            # the conjunction builders copy Expression arguments when copy=True: a condition that lives in another (or the same)
+            # tree may be handed over, also twice, and its tree must come back untouched
+            t2, n2, _ = world.node(op["donor"][0], op["donor"][1])
+            if isinstance(n2, exp.Condition) and not isinstance(n2, exp.Query):
+                args = [n2, n2] if op["donor"][2] else [n2]
+                res["nm"].append(t2)
         kw = {"copy": cp}
         if b in ("select", "where", "group_by", "order_by", "having", "qualify", "sort_by", "cluster_by", "lateral", "window", "join") and not op["append"]:
             kw["append"] = False
@@ -708,7 +758,7 @@ def _apply(world, op, st):
             elif b in ("limit", "offset"):
                 r = getattr(sel, b)(arg, copy=cp)
             else:
-                r = getattr(sel, b)(arg, **kw)
+                r = getattr(sel, b)(*args, **kw)
         except Exception as e:
             res["outcome"] = type(e).__name__
             return res
@@ -732,6 +782,11 @@ def _apply(world, op, st):
             st["faults"]["bad_builder_arg"] += 1
         try:
             if b in ("and_", "or_"):
+                if cp and op.get("donor") and not op["bad"]:
+                    t2, n2, _ = world.node(op["donor"][0], op["donor"][1])
+                    if isinstance(n2, exp.Condition) and not isinstance(n2, exp.Query):
+                        arg = n2
+                        res["nm"].append(t2)
                 r = getattr(n, b)(arg, copy=cp)
             elif b == "not_":
                 r = n.not_(copy=cp)
@@ -850,6 +905,22 @@ def _apply(world, op, st):
     raise ValueError(k)
 
 
+def _db_args(op, n2, t2, res, st):
+    """db= / catalog= given as Identifier objects (the signature allows str | Identifier): a node of a live tree when the
+    second selector hits an Identifier, else a fresh mixed-case one. Either way the caller's object must come back unchanged."""
+    from sqlglot import exp
+
+    if not op.get("db_node"):
+        return {}
+    if isinstance(n2, exp.Identifier):
+        res["nm"].append(t2)
+        ident = n2
+    else:
+        ident = exp.to_identifier("MyDb")
+        st["_lineage_col"] = (ident, inv.fingerprint(ident), ident.sql(), "db=Identifier")
+    return {"db": ident, "catalog": ident} if op.get("db_node") == 2 else {"db": ident}
+
+
 def _apply_nm(world, op, st, res, target):
     """Calls documented not to mutate their arguments (default copy behaviour)."""
     import sqlglot
@@ -887,11 +958,11 @@ def _apply_nm(world, op, st, res, target):
             elif f == "optimize":
                 from sqlglot.optimizer import optimize
 
-                r = optimize(t, schema=_schema(), dialect=d if d in (None, "duckdb", "snowflake", "bigquery", "postgres", "spark", "mysql", "tsql") else None)
+                r = optimize(t, schema=_schema(), dialect=d if d in (None, "duckdb", "snowflake", "bigquery", "postgres", "spark", "mysql", "tsql") else None, **_db_args(op, n2, t2, res, st))
             elif f == "qualify_copy":
                 from sqlglot.optimizer.qualify import qualify
 
-                r = qualify(t.copy(), schema=_schema())
+                r = qualify(t.copy(), schema=_schema(), **_db_args(op, n2, t2, res, st))
             elif f == "annotate_copy":
                 from sqlglot.optimizer.annotate_types import annotate_types
 
@@ -1040,7 +1111,7 @@ def execute(record, state=None):
         pre_sql = None
         snap = None
         tgt_tree = None
-        if world.trees and k in ("set", "set_idx", "append", "replace", "pop", "transform", "replace_children", "replace_tree", "builder", "wrap", "set_kwargs", "rule"):
+        if world.trees and k in ("set", "set_case", "set_idx", "append", "replace", "pop", "transform", "replace_children", "replace_tree", "builder", "wrap", "set_kwargs", "rule"):
             tgt_tree = world.tree(op["t"])
             pre_sql = _sql(tgt_tree)
             if pre_sql is not None:
@@ -1102,9 +1173,10 @@ def execute(record, state=None):
             if _sql(tgt_tree) != pre_sql:
                 v = fail("N2-arg-sql-changed", _nm_name(op), step, "%s changed the SQL of its argument: %r -> %r" % (_nm_name(op), pre_sql[:120], (_sql(tgt_tree) or "")[:120]))
         if v is None and "_lineage_col" in st:
-            col, fp0, sql0 = st.pop("_lineage_col")
+            col, fp0, sql0, *lab = st.pop("_lineage_col")
             if inv.fingerprint(col) != fp0 or col.sql() != sql0:
-                v = fail("N1-arg-mutated", "lineage(column=node)", step, "lineage changed the caller's column node: %r -> %r" % (sql0, col.sql()))
+                v = fail("N1-arg-mutated", "%s(%s)" % (_nm_name(op), lab[0] if lab else "column=node"), step,
+                         "%s changed the caller's %s: %r -> %r (%s)" % (_nm_name(op), "column node" if not lab else lab[0] + " object", sql0, col.sql(), inv.first_diff(fp0, inv.fingerprint(col))))
         st.pop("_lineage_col", None)
         for new, src, kind in res["new"]:
             if v is not None:
@@ -1173,8 +1245,12 @@ def execute(record, state=None):
             pre_sql = _norm_sql(snap)
             if now_sql is not None and pre_sql is not None and now_sql != pre_sql:
                 probes["sql_changed_edits"] += 1
-                if type(mt) is type(snap) and inv.eq_preserving(mt, snap):
-                    v = fail("I4-eq-sql", _opname(op), step, "after %s the SQL changed (%r -> %r) but the tree still compares equal to its pre-edit snapshot" % (_opname(op), pre_sql[:100], now_sql[:100]))
+                # a case-only edit of an enum-like flag (Trim.position = 'leading') may change which keywords are printed: not judged;
+                # judged is a case-only edit whose whole visible effect is the text of a string literal / quoted identifier
+                judged = now_sql[0] != pre_sql[0] if k != "set_case" else (now_sql[0] == pre_sql[0] and now_sql[1] != pre_sql[1])
+                if judged and type(mt) is type(snap) and inv.eq_preserving(mt, snap):
+                    diff = next(((a_, b_) for a_, b_ in zip(pre_sql[1], now_sql[1]) if a_ != b_), None) if now_sql[0] == pre_sql[0] else (pre_sql[0][:100], now_sql[0][:100])
+                    v = fail("I4-eq-sql", _opname(op), step, "after %s the SQL changed (%r -> %r) but the tree still compares equal to its pre-edit snapshot" % (_opname(op), diff[0], diff[1]))
         if v is None:
             # I5 frame: trees that are not declared targets keep their strict fingerprint
             for t in pre_trees:
